@@ -5,8 +5,11 @@ package props
 import (
 	"fmt"
 	"os"
+	"runtime"
+	"runtime/debug"
 	"sort"
 	"strings"
+	"time"
 
 	secp256k1 "gitlab.com/yawning/secp256k1-voi"
 
@@ -174,6 +177,30 @@ func runC17(r *mon.Run) {
 				continue
 			}
 			if d := c17Diff(b.base); d != "" {
+				// The block counters are process-wide.  Work the library does asynchronously - finalizers and
+				// cleanups, which a collection starts on their own goroutine whenever it finds garbage -
+				// is charged to whichever secret is being traced at that moment.  A dependence on the secret
+				// is reproducible; that is not.  So: let every pending finalizer run, switch the collector
+				// off, trace the two secrets again, and judge that pair.
+				f0 := c.op.prep(secrets[b.first], c.variant)
+				c17Quiesce()
+				secp256k1.VerifInstrReset()
+				f0()
+				base2 := c17Take()
+				f1 := c.op.prep(s, c.variant)
+				c17Quiesce()
+				secp256k1.VerifInstrReset()
+				f1()
+				d = c17Diff(base2)
+				debug.SetGCPercent(400)
+				if d == "" {
+					w.Class("c17:difference-not-reproduced-with-finalizers-drained-and-collector-off")
+					if base.nonzero == b.base.nonzero && len(buckets) == 1 {
+						base = base2
+					}
+					b.base = base2
+					continue
+				}
 				shNote := ""
 				if sh != "" {
 					shNote = " (both published outputs have the shape " + sh + ")"
@@ -208,4 +235,33 @@ func runC17(r *mon.Run) {
 	}
 	sort.Strings(names)
 	_ = os.Getenv
+}
+
+type c17Sentinel struct {
+	p   *int
+	pad [48]byte
+}
+
+//go:noinline
+func c17PlantSentinel(done chan struct{}) {
+	s := &c17Sentinel{p: new(int)}
+	runtime.SetFinalizer(s, func(*c17Sentinel) { close(done) })
+}
+
+// c17Quiesce lets every finalizer that is already due run to completion and leaves the collector
+// switched off (the caller switches it on again): a full collection queues what is due, a sentinel
+// planted afterwards is finalized by the next collection, behind everything queued before it.
+func c17Quiesce() {
+	debug.SetGCPercent(-1)
+	runtime.GC()
+	done := make(chan struct{})
+	c17PlantSentinel(done)
+	for i := 0; i < 20; i++ {
+		runtime.GC()
+		select {
+		case <-done:
+			return
+		case <-time.After(20 * time.Millisecond):
+		}
+	}
 }
